@@ -1155,6 +1155,9 @@ func bxvParseCases(fails *[]bxvFailure) int {
 	return n
 }
 
+// set by the verif-tagged companion file
+var bxvBudgetHook func(*[]bxvFailure) int
+
 func TestBxvBattery(t *testing.T) {
 	prop := os.Getenv("BXV_PROP")
 	out := os.Getenv("BXV_OUT")
@@ -1191,6 +1194,10 @@ func TestBxvBattery(t *testing.T) {
 		n += bxvDeterminism(&fails)
 	case "C10":
 		n += bxvParseCases(&fails)
+	case "C11":
+		if bxvBudgetHook != nil {
+			n += bxvBudgetHook(&fails)
+		}
 	case "C12":
 		n += bxvConcurrent(&fails)
 	case "C13":
